@@ -19,7 +19,7 @@ IsEvent(e) == l <= Len(Trace) /\ Trace[l].ev = e /\ l' = l + 1 /\ Mark(l)
 With(f, k, v) == [x \in DOMAIN f \cup {k} |-> IF x = k THEN v ELSE f[x]]
 
 Seg == IsEvent("seg") /\ plan' = <<>> /\ tok' = <<>> /\ tcSent' = {} /\ Rest
-ExBegin == IsEvent("ex.begin") /\ plan' = With(plan, Trace[l].ex, [udp |-> Trace[l].udp, tcp |-> Trace[l].tcp])
+ExBegin == IsEvent("ex.begin") /\ plan' = With(plan, Trace[l].ex, [udp |-> Trace[l].udp, tcp |-> Trace[l].tcp, short |-> Trace[l].short])
            /\ UNCHANGED <<tok, tcSent>> /\ Rest
 
 SrvRecv == /\ IsEvent("srv.recv")
@@ -43,7 +43,8 @@ ExEnd == /\ IsEvent("ex.end")
                 p == plan[ev.ex]
                 cls == Class(ev)
             IN Report(l, (IF cls = "udp-reply" /\ tok[ev.tok].tc THEN {"Inv_C16_NeverTruncated"} ELSE {})
-                      \cup (IF cls = F!Result(p.udp, p.tcp) THEN {} ELSE {"Inv_C16_Outcome"}))
+                      \* with a deadline around the reply time the caller may legitimately get an error instead
+                      \cup (IF cls = F!Result(p.udp, p.tcp) \/ (p.short /\ cls = "error") THEN {} ELSE {"Inv_C16_Outcome"}))
          /\ UNCHANGED <<plan, tok, tcSent>> /\ Rest
 
 Skip == IsEvent("srv.abort") /\ UNCHANGED <<plan, tok, tcSent>> /\ Rest
